@@ -365,6 +365,13 @@ func (in *Interp) merge(c *smt.Term, a, b Value) Value {
 	if same(a, b) {
 		return a
 	}
+	if isRealTerm(a) || isRealTerm(b) {
+		x, ok1 := in.realOf(a)
+		y, ok2 := in.realOf(b)
+		if ok1 && ok2 {
+			return in.St.Ite(c, x, y)
+		}
+	}
 	switch x := a.(type) {
 	case *smt.Term:
 		if y, ok := b.(*smt.Term); ok && x.W == y.W {
